@@ -171,8 +171,12 @@ def distribution_for(config, columns, rng):
     if config == 'name':
         return 'copulas.univariate.' + str(rng.choice(fast))
     if config == 'instance':
-        return cu.GaussianKDE(bw_method=float(rng.choice([0.2, 0.5, 1.0]))) if rng.random() < 0.5 else \
-            cu.TruncatedGaussian()
+        r = rng.random()
+        if r < 0.4:
+            return cu.GaussianKDE(bw_method=float(rng.choice([0.2, 0.5, 1.0])))
+        if r < 0.7:
+            return cu.TruncatedGaussian(-1e7, 1e7)          # options given positionally
+        return cu.TruncatedGaussian()
     dist = {}
     for c in columns:
         r = rng.random()
@@ -236,3 +240,21 @@ def give_past(model, df, rng):
     except Exception:  # noqa: BLE001 - the past is only a diversity factor
         pass
     return model
+
+
+def prototype_options_kept(model):
+    """(ok, detail): when the configured distribution is an instance prototype, every fitted marginal of
+    that class carries the prototype's constructor options."""
+    proto = model.distribution
+    if isinstance(proto, (str, type, dict)) or proto is None:
+        return True, None
+    attrs = {'GaussianKDE': ('bw_method', '_fit_sample_size'), 'TruncatedGaussian': ('min', 'max')}.get(type(proto).__name__, ())
+    for u in model.univariates:
+        if type(u) is not type(proto):
+            continue            # Gaussian fallback after a refused fit
+        for a in attrs:
+            if getattr(u, a, '<missing>') != getattr(proto, a, '<missing>'):
+                return False, {'attribute': a, 'prototype': repr(getattr(proto, a, None)), 'fitted': repr(getattr(u, a, None))}
+        if u is proto:
+            return False, {'attribute': 'identity', 'note': 'the prototype itself was fitted'}
+    return True, None
